@@ -196,15 +196,32 @@ theorem index_footer_bitflip_rejected (E : Env) (hloc : PayloadLocal E) (hbd : P
   obtain ⟨c, final, h1, h2, h3⟩ := streamOne_index_footer_flip E hloc hbd fl true b cap hr
   exact ⟨c, final, h1, h2, fun i hlo hhi => xzDecode_ne_of_streamOne E fl _ cap (h3 i hlo hhi)⟩
 
+/-- **header_bitflip_rejected (Block Header, Block Padding, Check — whole file).**  Without LZMA_CONCATENATED and
+    LZMA_IGNORE_CHECK, Check ID None or supported: flipping one protected bit (`ProtectedBit`: any Block Header bit
+    except the Block Header Size byte, any Block Padding bit, any Check bit) of any Block of an accepted file makes the
+    decoder reject the file.  `j` counts bits from the end of the Stream Header. -/
+theorem block_fields_bitflip_rejected (E : Env) (hloc : PayloadLocal E) (hbd : PayloadBounded E) (fl : Flags)
+    (hnc : fl.concatenated = false) (hign : fl.ignoreCheck = false) (b : List UInt8) (cap : Nat)
+    (hr : (xzDecode E fl b cap).ret = .streamEnd)
+    (hsup : ∀ hdr, streamHeaderDecode (b.take STREAM_HEADER_SIZE) = .ok hdr → hdr.check ≠ 0 → E.checkSupported hdr.check = true) :
+    ∃ (hdr : StreamFlags) (c : Nat) (final : HashInfo),
+      streamHeaderDecode (b.take STREAM_HEADER_SIZE) = .ok hdr ∧
+      BlocksRun E fl hdr [] (b.drop STREAM_HEADER_SIZE) cap (xzDecode E fl b cap).out c final ∧
+      ∀ (j : Nat), ProtectedBit E fl hdr (b.drop STREAM_HEADER_SIZE) cap j → j < 8 * c →
+        (xzDecode E fl (flipBit b (8 * STREAM_HEADER_SIZE + j)) cap).ret ≠ .streamEnd := by
+  have e1 := xzDecode_single E fl hnc b cap hr
+  rw [e1] at hr ⊢
+  obtain ⟨hdr, c, final, h1, h2, h3⟩ := streamOne_blocks_flip E hloc hbd fl hign true b cap hr hsup
+  exact ⟨hdr, c, final, h1, h2, fun j hp hj => xzDecode_ne_of_streamOne E fl _ cap (h3 j hp hj)⟩
+
 /-- The whole-file form: every single-bit flip in Stream Header, Block Header, Block Padding, Check (supported ID, no
     LZMA_IGNORE_CHECK), Index, Stream Footer or (LZMA_CONCATENATED) Stream Padding of an accepted file is rejected.
-    Proved for the whole file: Stream Header (`stream_header_bitflip_rejected`), Index and Stream Footer
-    (`index_footer_bitflip_rejected`); at the stage that reads them: Block Header, Block Padding, Check.  Missing for the
-    whole-file form: (i) lifting the three Block-level theorems through the Blocks that precede the damaged one
-    (`BlocksRun_local` is the tool), (ii) Stream Padding with LZMA_CONCATENATED, and (iii) the two bytes whose flip
-    changes the parse instead of failing a CRC — the Block Header Size byte and the Index Indicator — for which rejection
-    is not a theorem of the format (it would need a CRC32 coincidence to be excluded).  The correspondence run checks
-    all of them exhaustively on the real decoder (`per_field_bitflips` in the evidence). -/
+    Proved for the whole file, without LZMA_CONCATENATED: Stream Header (`stream_header_bitflip_rejected`), every Block's
+    header / padding / Check (`block_fields_bitflip_rejected`), Index and Stream Footer (`index_footer_bitflip_rejected`).
+    Not covered by a theorem: (i) the Streams after the first and Stream Padding under LZMA_CONCATENATED, and (ii) the two
+    kinds of byte whose flip changes the parse instead of failing a CRC — the Block Header Size byte and the Index
+    Indicator — for which rejection is not a theorem of the format (a CRC32 coincidence would have to be excluded).  The
+    correspondence run checks all of them exhaustively on the real decoder (`per_field_bitflips` in the evidence). -/
 def header_bitflip_rejected_statement : Prop :=
   ∀ (E : Env) (fl : Flags) (b : List UInt8) (cap : Nat) (payloadMask : List Bool) (i : Nat),
     PayloadLocal E → fl.ignoreCheck = false → (xzDecode E fl b cap).ret = .streamEnd →
@@ -312,6 +329,9 @@ example : (xzDecode toyEnv {} (flipBit toyXz 3)).ret = .formatError := by decide
 -- Block Header (bit 113 = filter properties), Compressed Data (bit 200), Check (bit 230), Index (bit 270), footer (bit 400)
 example : [113, 200, 230, 270, 400].map (fun i => (xzDecode toyEnv {} (flipBit toyXz i)).ret)
     = [.dataError, .dataError, .dataError, .dataError, .dataError] := by decide +kernel
+-- bit 113 = 96 + 17 is a `ProtectedBit` (Block Header, not the size byte), as `block_fields_bitflip_rejected` requires
+example : ProtectedBit toyEnv {} ⟨0, 1⟩ (toyXz.drop STREAM_HEADER_SIZE) UNLIMITED 17 :=
+  ProtectedBit.header _ _ 0x02 ((toyXz.drop STREAM_HEADER_SIZE).drop 1) 17 (by decide +kernel) (by decide) (by decide)
 -- every proper prefix is reported as LZMA_BUF_ERROR (`prefix_free`), the whole file is accepted
 example : (List.range 52).all (fun n => (xzDecode toyEnv {} (toyXz.take n)).ret == .bufError) = true := by decide +kernel
 -- lzma_stream_buffer_decode: success is LZMA_OK; a truncated buffer is LZMA_DATA_ERROR with the positions restored
